@@ -33,6 +33,21 @@ MOCKS = [
 ]
 
 
+def names_buffer(names_in_order):
+  """A MuJoCo `names` buffer (null-separated UTF-8, addressed by BYTE offset) that starts with a non-ASCII name, so
+  that byte offsets and character offsets differ for every later name.  -> (bytes, {name index: byte address})"""
+  buf = 'caf\u00e9 \u4e16\u754c'.encode('utf-8') + b'\x00'
+  adr = {}
+  for k, nm in enumerate(names_in_order):
+    adr[k] = len(buf)
+    buf += nm.encode('utf-8') + b'\x00'
+  return buf, adr
+
+
+def _BODY_NAMES(nbody):
+  return names_buffer(['world'] + ['link\u00e9%d' % b for b in range(1, nbody)])
+
+
 def mock(spec, with_init_qpos=True):
   joints = spec['joints']
   nbody = len(joints) + 1
@@ -61,7 +76,8 @@ def mock(spec, with_init_qpos=True):
       'actuator_gainprm': symarr('agp', (nu, 3)), 'actuator_gear': symarr('agr', (nu, 6)),
       'actuator_trntype': np.array([a['trn'] for a in act], dtype=int),
       'actuator_trnid': np.array([[a['jnt'], -1] for a in act], dtype=int).reshape(nu, 2),
-      'name_bodyadr': np.arange(nbody) * 6, 'qpos0': symarr('qpos0', (nq,)),
+      'name_bodyadr': np.array([_BODY_NAMES(nbody)[1][k] for k in range(nbody)], dtype=int), 'names': _BODY_NAMES(nbody)[0],
+      'qpos0': symarr('qpos0', (nq,)),
       'opt': Struct('Opt', {'gravity': symarr('grav', (3,)), 'viscosity': sym('visc'), 'density': sym('dens'), 'iterations': 4}),
   }
   mj = Struct('MjModel', f)
@@ -78,7 +94,6 @@ def mock(spec, with_init_qpos=True):
 def run_loader(repo, mj, custom):
   I = new_interp(repo, reset=False)
   I.contracts[('brax.io.mjcf', '_get_custom')] = lambda m: custom
-  I.contracts[('brax.io.mjcf', '_get_name')] = lambda m, i: 'body@%s' % (i,)
   base_ext = I.extern
   put = Struct('MjxModel', {'nq': mj.f['nq'], 'nv': mj.f['nv'], 'nu': mj.f['nu'], 'nbody': mj.f['nbody']})
 
@@ -132,7 +147,7 @@ def expected(mj, custom):
                 ('constraint_limit_stiffness', 'constraint_limit_stiffness'), ('constraint_ang_damping', 'constraint_ang_damping')):
     E['link.' + k] = _rows(custom[ck])[1:]
   E['link_parents'] = tuple(int(p) - 1 for p in m['body_parentid'][1:])
-  E['link_names'] = ['body@%s' % (i,) for i in m['name_bodyadr'][1:]]
+  E['link_names'] = ['link\u00e9%d' % b for b in range(1, nbody)]
   # ---- dofs in joint order
   ang, vel, lo, hi, stiff = [], [], [], [], []
   z3 = [Rat.lift(0)] * 3
@@ -296,9 +311,11 @@ def custom_mock(spec):
   names = {}
   adr = 0
   num_adr, num_size, name_numericadr = [], [], []
+  all_names = [nm for nm, _ in spec['numeric']] + [nm for nm, _, _ in spec['tuples']]
+  buf, badr = names_buffer(all_names)
   for i, (nm, n) in enumerate(spec['numeric']):
-    names[100 + i] = nm
-    name_numericadr.append(100 + i)
+    names[badr[i]] = nm
+    name_numericadr.append(badr[i])
     num_adr.append(adr)
     num_size.append(n)
     adr += n
@@ -306,15 +323,15 @@ def custom_mock(spec):
   t_adr, t_size, name_tupleadr, objtype, objid = [], [], [], [], []
   tadr = 0
   for i, (nm, ot, ids) in enumerate(spec['tuples']):
-    names[200 + i] = nm
-    name_tupleadr.append(200 + i)
+    names[badr[len(spec['numeric']) + i]] = nm
+    name_tupleadr.append(badr[len(spec['numeric']) + i])
     t_adr.append(tadr)
     t_size.append(len(ids))
     objtype += [ot] * len(ids)
     objid += list(ids)
     tadr += len(ids)
   mj = Struct('MjModel', {
-      'nbody': spec['nbody'], 'ngeom': spec['ngeom'], 'nq': spec['nq'],
+      'nbody': spec['nbody'], 'ngeom': spec['ngeom'], 'nq': spec['nq'], 'names': buf,
       'name_numericadr': np.array(name_numericadr, dtype=int), 'numeric_size': np.array(num_size, dtype=int),
       'numeric_adr': np.array(num_adr, dtype=int), 'numeric_data': data,
       'name_tupleadr': np.array(name_tupleadr, dtype=int), 'tuple_adr': np.array(t_adr, dtype=int),
@@ -325,7 +342,7 @@ def custom_mock(spec):
 
 def run_get_custom(repo, mj, names):
   I = new_interp(repo, reset=False)
-  I.contracts[('brax.io.mjcf', '_get_name')] = lambda m, i: names[int(i)]
+  # _get_name is interpreted for real on the bytes buffer (names are addressed by byte offset)
   I.contracts[('brax.io.mjcf', '_check_custom')] = lambda m, c: None
   return I.apply(fn('brax.io.mjcf', '_get_custom'), [mj], {})
 
